@@ -285,6 +285,8 @@ fn run_resource(dep0: u32, fb: Option<u32>, events: &[String]) -> (String, Optio
     run_resource_opt(dep0, fb, false, events)
 }
 
+thread_local! { static OBSERVE_READERS: std::cell::Cell<bool> = const { std::cell::Cell::new(false) }; }
+
 /// `fl`: a subscriber of `is_loading` that moves an odd dependency on to the next value whenever a load is announced
 fn run_resource_opt(dep0: u32, fb: Option<u32>, fl: bool, events: &[String]) -> (String, Option<String>) {
     PANIC_LOG.with(|p| p.borrow_mut().clear());
@@ -331,14 +333,23 @@ fn run_resource_opt(dep0: u32, fb: Option<u32>, fl: bool, events: &[String]) -> 
         });
         let (dep, res, scope) = (dep.unwrap(), res.unwrap(), scope.unwrap());
         let readers: Rc<RefCell<Vec<NodeHandle>>> = Default::default();
+        // mode `resourcerd`: the loading state of every reader boundary is observed and judged; per reader (oldest
+        // first): the boundary's is_loading selector, and what the statement expects: (guard held, recorded for the next fetch)
+        let rd = OBSERVE_READERS.with(|o| o.get());
+        let reader_sel: Rc<RefCell<Vec<ReadSignal<bool>>>> = Default::default();
+        let mut reader_exp: Vec<(bool, bool)> = vec![];
         let mut alive = true;
         // harness bookkeeping for the oracle
         let (mut started, mut latest_dep, mut completed, mut value): (u32, u32, bool, Option<(u32, u32)>) = (1, dep0, false, None);
         let mut cur_dep = dep0;
-        let show = |alive: bool| -> String {
-            if !alive { return "dead".into(); }
+        let rs2 = reader_sel.clone();
+        let show = move |alive: bool| -> String {
+            let b = if rd {
+                format!(" B=[{}]", rs2.borrow().iter().map(|s| match catch(|| root.run_in(|| s.get_untracked())) { Ok(v) => (v as u8).to_string(), Err(_) => "p".into() }).collect::<Vec<_>>().join(","))
+            } else { String::new() };
+            if !alive { return format!("dead{b}"); }
             match catch(|| root.run_in(|| (res.get_clone_untracked(), res.is_loading()))) {
-                Ok((v, l)) => format!("{} l={}", match v { Some((k, d)) => format!("v={k}:{d}"), None => "v=none".into() }, l as u8),
+                Ok((v, l)) => format!("{} l={}{b}", match v { Some((k, d)) => format!("v={k}:{d}"), None => "v=none".into() }, l as u8),
                 Err(m) => format!("panic:{}", m.replace(' ', "_")),
             }
         };
@@ -352,12 +363,26 @@ fn run_resource_opt(dep0: u32, fb: Option<u32>, fl: bool, events: &[String]) -> 
             r = catch(|| root.run_in(|| {
                 // `u`: the resource is read under a new suspense boundary that lives in a new child scope;
                 // `y`: the oldest such scope is disposed (the boundary the resource remembers is gone)
-                if e == "u" { if alive { readers.borrow_mut().push(create_child_scope(|| { let _ = create_suspense_scope(|| { let _ = res.get_clone(); }); })); } }
-                else if e == "y" { if !readers.borrow().is_empty() { let h = readers.borrow_mut().remove(0); h.dispose(); } }
+                if e == "u" { if alive { readers.borrow_mut().push(create_child_scope(|| { let _ = create_suspense_scope(|| {
+                    if rd { let me = try_use_context::<SuspenseScope>().expect("suspense scope in context"); reader_sel.borrow_mut().push(me.is_loading()); }
+                    let _ = res.get_clone(); }); })); } }
+                else if e == "y" { if !readers.borrow().is_empty() { let h = readers.borrow_mut().remove(0); if rd && !reader_sel.borrow().is_empty() { reader_sel.borrow_mut().remove(0); } h.dispose(); } }
                 else if e == "x" { scope.dispose(); }
                 else if let Some(v) = e.strip_prefix('w') { if alive { dep.set(v.parse().unwrap()); } }
                 else if let Some(k) = e.strip_prefix('f') { let k: usize = k.parse().unwrap(); if k >= 1 { if let Some(tx) = txs.borrow_mut().get_mut(k - 1).and_then(|t| t.take()) { let _ = tx.send(()); } } }
             }));
+            // what the statement expects of the reader boundaries
+            if rd {
+                let latest_outstanding = !completed;
+                if e == "u" { if alive { reader_exp.push(if latest_outstanding { (true, false) } else { (false, true) }); } }
+                else if e == "y" { if !reader_exp.is_empty() { reader_exp.remove(0); } }
+                else if e == "x" { for r in reader_exp.iter_mut() { *r = (false, false); } }
+                else if alive && e.starts_with('w') { for r in reader_exp.iter_mut() { if r.1 { *r = (true, false); } } }
+                else if alive && e.starts_with('f') {
+                    let k: u32 = e[1..].parse().unwrap();
+                    if k == started && !completed { for r in reader_exp.iter_mut() { r.0 = false; } }
+                }
+            }
             if e == "x" { alive = false; }
             else if alive {
                 if let Some(v) = e.strip_prefix('w') {
@@ -393,9 +418,16 @@ fn run_resource_opt(dep0: u32, fb: Option<u32>, fl: bool, events: &[String]) -> 
                 break;
             }
             let o = show(alive);
+            if rd && verdict.is_none() {
+                let have = o.rsplit_once(" B=").map(|x| x.1.to_string()).unwrap_or_default();
+                let want = format!("[{}]", reader_exp.iter().map(|r| (r.0 as u8).to_string()).collect::<Vec<_>>().join(","));
+                if have != want {
+                    verdict = Some(format!("[suspense-loading] after event {e}: the boundaries that read the resource report loading = {have}, expected {want} (a boundary that read it while a fetch was outstanding stays loading until the LATEST fetch delivers; one that read it in between is suspended by the next fetch)"));
+                }
+            }
             if verdict.is_none() && alive {
                 let want = format!("{} l={}", match value { Some((k, d)) => format!("v={k}:{d}"), None => "v=none".into() }, (!completed) as u8);
-                if o != want {
+                if o.split(" B=").next().unwrap() != want {
                     verdict = Some(format!("[resource-latest] after event {e}: resource shows `{o}`, the latest-fetch rule gives `{want}` (fetch {started} is the latest, {} outstanding)", if completed { "not" } else { "still" }));
                 }
             }
@@ -411,6 +443,13 @@ pub fn exec(line: &str) -> (String, Option<String>, bool) {
         let (d, evs) = r.split_once(' ').unwrap();
         let evs: Vec<String> = if evs == "-" { vec![] } else { evs.split(',').map(|s| s.to_string()).collect() };
         let (o, v) = run_resource(d.parse().unwrap(), None, &evs);
+        (o, v, evs.len() >= 2)
+    } else if let Some(r) = rest.strip_prefix("resourcerd ") {
+        let (d, evs) = r.split_once(' ').unwrap();
+        let evs: Vec<String> = if evs == "-" { vec![] } else { evs.split(',').map(|s| s.to_string()).collect() };
+        OBSERVE_READERS.with(|o| o.set(true));
+        let (o, v) = run_resource(d.parse().unwrap(), None, &evs);
+        OBSERVE_READERS.with(|o| o.set(false));
         (o, v, evs.len() >= 2)
     } else if let Some(r) = rest.strip_prefix("resourcefl ") {
         let (d, evs) = r.split_once(' ').unwrap();
@@ -727,6 +766,41 @@ pub fn generate(args: &Args) -> Vec<String> {
     }
     // C15: the resource is read under boundaries that come and go (the resource re-suspends every boundary it
     // was read under when it is fetched again)
+    // C13: the boundaries that read the resource are observed: all event sequences up to length 5 (6) over reads,
+    // reader disposals, writes and completions; random longer ones with the owner's disposal
+    {
+        let alpha = ["u", "w", "f1", "f2", "f3", "y"];
+        let maxlen = if thorough { 6 } else { 5 };
+        let mut frontier: Vec<Vec<&str>> = vec![vec![]];
+        let mut seqs: Vec<Vec<&str>> = vec![];
+        for _ in 0..maxlen {
+            let mut next = vec![];
+            for s in &frontier { for a in alpha { let mut t = s.clone(); t.push(a); next.push(t); } }
+            seqs.extend(next.iter().cloned());
+            frontier = next;
+        }
+        for s in seqs.iter() {
+            if !s.contains(&"u") { continue; }
+            let mut wv = 10;
+            let evs: Vec<String> = s.iter().map(|e| if *e == "w" { wv += 1; format!("w{wv}") } else { e.to_string() }).collect();
+            l.push(format!("async resourcerd 7 {}", evs.join(",")));
+        }
+        for _ in 0..(if thorough { 20_000 } else { 500 }) {
+            let n = 5 + rng.below(8);
+            let mut started = 1;
+            let mut evs: Vec<String> = vec![];
+            for _ in 0..n {
+                evs.push(match rng.below(9) {
+                    0 | 1 => { started += 1; format!("w{}", 10 + started) }
+                    2 | 3 => format!("f{}", 1 + rng.below(started)),
+                    4 | 5 | 6 => "u".into(),
+                    7 => "y".into(),
+                    _ => if rng.chance(1, 3) { "x".into() } else { "u".into() },
+                });
+            }
+            l.push(format!("async resourcerd 7 {}", evs.join(",")));
+        }
+    }
     for seq in ["f1,u,y,w11,f2", "f1,u,w11,y,f2", "u,y,f1,w11,f2", "f1,u,u,y,w11,y,w12,f3", "u,f1,y,w11,f2,u,w12,y,f3", "f1,u,w11+y,f2", "f1,u,y+w11,f2,w12,f3"] {
         l.push(format!("async resource 7 {seq}"));
         if !seq.contains('+') { l.push(format!("async resourcefb 7 1 {seq}")); }
